@@ -92,6 +92,7 @@ def small_scope_trees(ctx):
         yield ["or", ["m", x], ["m", y]]
     yield from resolution_trees()
     yield from contradiction_trees()
+    yield from factored_extra_trees()
     ea = [f'extra {op} "{n}"' for op in ("==", "!=") for n in ("a", "b", "Foo_Bar")]
     for x, y, z in itertools.product(ea, repeat=3):
         yield ["or", ["and", ["m", x], ["m", y]], ["m", z]]
@@ -376,6 +377,27 @@ def contradiction_trees():
         for order in ([*clauses, third], [third, *clauses]):
             yield ["m", " and ".join(f"({a})" for a in order)]
         yield ["and", ["and", ["or", ["m", nx], ["m", cd]], ["or", ["m", ny], ["m", cd]]], ["m", third]]
+
+
+def factored_extra_trees():
+    """`(P and e1) | (P and e2)` factors into `P and (e1 or e2)`: a conjunction with a union child made only of atoms
+    of the variable that is then eliminated (without_extras / exclude / only) - a shape only `|` produces."""
+    Ps = ['python_version >= "3.8"', 'os_name == "a"', 'os_name == "a" or os_name == "b"', 'python_version >= "3.8" and os_name == "a"']
+    Es = [("extra", ['extra == "cli"', 'extra == "docs"', 'extra == "test"']),
+          ("sys_platform", ['sys_platform == "linux"', 'sys_platform == "win32"', 'sys_platform == "darwin"'])]
+    for P, (ev, es), k in itertools.product(Ps, Es, (2, 3)):
+        alts = [["and", ["m", P], ["m", e]] for e in es[:k]]
+        u = alts[0]
+        for a in alts[1:]:
+            u = ["or", u, a]
+        names = [n for n in ("python_version", "os_name") if n in P]
+        for base in (u, ["or", u, ["m", 'implementation_name == "pypy"']], ["and", u, ["m", 'implementation_name == "cpython"']]):
+            yield ["exclude", base, ev]
+            yield ["only", base, names]
+            yield ["only", base, names + ["implementation_name"]]
+            if ev == "extra":
+                yield ["noextras", base]
+            yield ["str", ["exclude", base, ev]]
 
 
 def run_trees(ctx, run_tree, *, n_random, max_atoms, unary_p=0.3, small_frac=1.0, cfg=None, seconds=None, strata=True):
